@@ -282,20 +282,23 @@ class Session:
             return None
         except D.Hang:
             # re-run alone with a ten times larger limit before concluding anything
+            d2 = None
             try:
                 d2 = D.Driver(variant, timeout=self.timeout * 10)
-                try:
-                    for rq in (history or []):
-                        d2.call(*D.req_from_json(rq))
-                    rep = d2.call(op, fmt, ext, lang, flags, args)
-                finally:
-                    d2.close()
+                for rq in (history or []):
+                    d2.call(*D.req_from_json(rq))
+                rep = d2.call(op, fmt, ext, lang, flags, args, keep_on_hang=True)
+                d2.close()
                 return rep
             except D.Hang:
+                fns = d2.sample_stack() if d2 else []
+                d2.close()
+                # signature: where it spins (innermost distinct library functions, sampled with gdb)
+                key = 'hang:%s@%s' % (D.FMT_NAME.get(fmt, fmt) if op in ('CONVERT', D.OP['CONVERT']) else 'op%s' % op, '+'.join(fns[:4]) or '?')
                 if hang_is_violation:
-                    self.r.violate('hang@op%s' % op, 'no reply within %ss, reproduced alone %s' % (self.timeout * 10, what), case)
+                    self.r.violate(key, 'no reply within %ss, reproduced alone %s' % (self.timeout * 10, what), case, 'stack: ' + ' < '.join(fns))
                 else:
-                    self.r.inconclusive.append(dict(what='hang op%s %s' % (op, what), case=case))
+                    self.r.inconclusive.append(dict(what='%s %s' % (key, what), case=case))
                 return None
             except D.Crash as c:
                 if crash_is_violation:
